@@ -193,6 +193,7 @@ Example px_fix_never_wrong :
         /\ fs_find (r_fs (out_st out)) j (cf_name f) = None /\ In (K_ST_UNREC, [N.of_nat j; cf_name f]) (r_tags (out_st out))
         /\ r_unrec (out_st out) <> 0 /\ out_fail out = true)
        \/ (fl_damaged (get_fl (r_flags (out_st out)) (j, cf_name f)) = false
+           /\ (exists g, fs_find (r_fs (out_st out)) j (cf_name f) = Some g /\ ff_size g = cf_size f)
            /\ (fb_state b <> SChg -> fblk (r_fs (out_st out)) j (cf_name f) i = px_rb p j)
            /\ (fb_state b = SChg ->
                  fblk (r_fs (out_st out)) j (cf_name f) i = fblk px_fs2 j (cf_name f) i
@@ -201,4 +202,68 @@ Example px_fix_never_wrong :
 Proof.
   exact (run_fix_never_wrong w_hashf w_padz w_truncf 1024 2 w_newino 999 x_fix px_c 2 px_fs2 px_par [] px_rb x_plain_fix eq_refl px_geom eq_refl eq_refl (le_n 2)
            px_objs_ok px_past_hash_inv_all px_collision_free_blk).
+Qed.
+
+(* "reported recovered": in the run on px_fs2 file 2 is reported recovered (status:recovered:0:2 is in the log) and file 1 is not *)
+Example px_fix_run_recovered_iff :
+  let out := check_run w_hashf w_padz w_truncf 1024 2 false w_newino 999 x_fix px_c px_par px_fs2 [] (seq 0 2) in
+  (In (K_ST_RECOVERED, [0; 2]%N) (r_tags (out_st out)) <->
+   fl_fixed (get_fl (r_flags (out_st out)) (0, 2%N)) = true /\ fl_damaged (get_fl (r_flags (out_st out)) (0, 2%N)) = false)
+  /\ (In (K_ST_RECOVERED, [0; 1]%N) (r_tags (out_st out)) <->
+      fl_fixed (get_fl (r_flags (out_st out)) (0, 1%N)) = true /\ fl_damaged (get_fl (r_flags (out_st out)) (0, 1%N)) = false).
+Proof.
+  cbn zeta. split.
+  - exact (run_fix_recovered_iff w_hashf w_padz w_truncf 1024 2 w_newino 999 x_fix px_c 2 px_fs2 px_par [] x_plain_fix eq_refl px_geom eq_refl eq_refl (le_n 2)
+             px_objs_ok 1 0 px_f2 0 _ eq_refl).
+  - exact (run_fix_recovered_iff w_hashf w_padz w_truncf 1024 2 w_newino 999 x_fix px_c 2 px_fs2 px_par [] x_plain_fix eq_refl px_geom eq_refl eq_refl (le_n 2)
+             px_objs_ok 0 0 px_f1 0 _ eq_refl).
+Qed.
+Example px_fix_run_recovered_computed :
+  let out := check_run w_hashf w_padz w_truncf 1024 2 false w_newino 999 x_fix px_c px_par px_fs2 [] (seq 0 2) in
+  filter (fun t => N.eqb (fst t) K_ST_RECOVERED || N.eqb (fst t) K_ST_UNREC) (r_tags (out_st out))
+  = [(K_ST_UNREC, [0; 1]%N); (K_ST_RECOVERED, [0; 2]%N)].
+Proof. vm_compute. reflexivity. Qed.
+
+(* the recorded size.  px_fs3: file 2 was truncated to nothing (size 0, no block); px_fs4: file 2 grew (2048 bytes, a second block);
+   file 1 is lost in both.  The size statement holds on both arrays, and computed: file 2 ends with its recorded 1024 bytes and its
+   recorded block *)
+Definition px_fs3 : list (option fsdisk) := [Some [mkFF 2 0 100 0 2 []]; Some [mkFF 3 1024 100 0 3 [13%N]]].
+Definition px_fs4 : list (option fsdisk) := [Some [mkFF 2 2048 100 0 2 [12%N; 77%N]]; Some [mkFF 3 1024 100 0 3 [13%N]]].
+Example px_fix_size_exact :
+  forall fs, fs = px_fs3 \/ fs = px_fs4 ->
+  let out := check_run w_hashf w_padz w_truncf 1024 2 false w_newino 999 x_fix px_c px_par fs [] (seq 0 2) in
+  forall p j f i b, slot_of px_c p j = SFile f i b ->
+    fl_damaged (get_fl (r_flags (out_st out)) (j, cf_name f)) = false ->
+    exists g, fs_find (r_fs (out_st out)) j (cf_name f) = Some g /\ ff_size g = cf_size f.
+Proof.
+  intros fs [E|E]; subst fs.
+  - exact (run_fix_size_exact w_hashf w_padz w_truncf 1024 2 w_newino 999 x_fix px_c 2 px_fs3 px_par [] x_plain_fix eq_refl px_geom eq_refl eq_refl (le_n 2) px_objs_ok).
+  - exact (run_fix_size_exact w_hashf w_padz w_truncf 1024 2 w_newino 999 x_fix px_c 2 px_fs4 px_par [] x_plain_fix eq_refl px_geom eq_refl eq_refl (le_n 2) px_objs_ok).
+Qed.
+Example px_fix_size_computed :
+  let out3 := check_run w_hashf w_padz w_truncf 1024 2 false w_newino 999 x_fix px_c px_par px_fs3 [] (seq 0 2) in
+  let out4 := check_run w_hashf w_padz w_truncf 1024 2 false w_newino 999 x_fix px_c px_par px_fs4 [] (seq 0 2) in
+  (option_map ff_size (fs_find (r_fs (out_st out3)) 0 2%N) = Some 1024%N /\ option_map ff_blocks (fs_find (r_fs (out_st out3)) 0 2%N) = Some [12%N]
+   /\ fl_damaged (get_fl (r_flags (out_st out3)) (0, 2%N)) = false)
+  /\ (option_map ff_size (fs_find (r_fs (out_st out4)) 0 2%N) = Some 1024%N /\ option_map ff_blocks (fs_find (r_fs (out_st out4)) 0 2%N) = Some [12%N]
+      /\ fl_damaged (get_fl (r_flags (out_st out4)) (0, 2%N)) = false).
+Proof. vm_compute. repeat split; reflexivity. Qed.
+
+(* "reported unrecoverable": in the run on px_fs2 the line is in the log for file 1, flagged DAMAGED, and not for file 2; and every
+   status:unrecoverable line of that log is for a file of the content file flagged DAMAGED *)
+Example px_fix_run_unrec_iff :
+  let out := check_run w_hashf w_padz w_truncf 1024 2 false w_newino 999 x_fix px_c px_par px_fs2 [] (seq 0 2) in
+  (In (K_ST_UNREC, [0; 1]%N) (r_tags (out_st out)) <-> fl_damaged (get_fl (r_flags (out_st out)) (0, 1%N)) = true)
+  /\ (In (K_ST_UNREC, [0; 2]%N) (r_tags (out_st out)) <-> fl_damaged (get_fl (r_flags (out_st out)) (0, 2%N)) = true)
+  /\ forall t, fst t = K_ST_UNREC -> In t (r_tags (out_st out)) ->
+        exists p j f i b, slot_of px_c p j = SFile f i b /\ t = (K_ST_UNREC, [N.of_nat j; cf_name f])
+                          /\ fl_damaged (get_fl (r_flags (out_st out)) (j, cf_name f)) = true.
+Proof.
+  cbn zeta. split; [|split].
+  - exact (run_fix_unrec_iff w_hashf w_padz w_truncf 1024 2 w_newino 999 x_fix px_c 2 px_fs2 px_par [] x_plain_fix eq_refl px_geom eq_refl eq_refl (le_n 2)
+             px_objs_ok 0 0 px_f1 0 _ eq_refl).
+  - exact (run_fix_unrec_iff w_hashf w_padz w_truncf 1024 2 w_newino 999 x_fix px_c 2 px_fs2 px_par [] x_plain_fix eq_refl px_geom eq_refl eq_refl (le_n 2)
+             px_objs_ok 1 0 px_f2 0 _ eq_refl).
+  - exact (run_fix_unrec_only w_hashf w_padz w_truncf 1024 2 w_newino 999 x_fix px_c 2 px_fs2 px_par [] x_plain_fix eq_refl px_geom eq_refl eq_refl (le_n 2)
+             px_objs_ok).
 Qed.
